@@ -310,6 +310,8 @@ Bytes KeyGen::value(int big_pm)
 	if (r.chance(big_pm, 1000)) {
 		static const size_t sp[] = { 126, 127, 128, 129, 1100, 2500, 16383, 16384, 16385 };
 		size_t n = sp[r.below(big_pm >= 100 ? 9 : 6)];
+		// now and then a value larger than the internal block limits of the compression libraries (128 KiB zstd blocks, 64 KiB lz4/snappy windows)
+		if (big_pm >= 100 && r.chance(1, 40)) { static const size_t huge[] = { 65535, 65536, 65537, 131071, 131072, 131073, 200000, 300000 }; n = huge[r.below(8)]; }
 		if (r.chance(1, 2)) v.assign(n, (char)r.below(256));
 		else { for (size_t i = 0; i < n; i++) v.push_back((char)r.below(256)); }
 		return v;
